@@ -262,6 +262,8 @@ def free_running(ctx):
     """Sanity pass with real threads and a real timer (not evidence of absence)."""
     pname = ('busy_real', 'printing_real')[ctx.choose(2, 'program')]
     prog = {'busy_real': "x = 0\nwhile True:\n    x = x + 1\n", 'printing_real': "i = 0\nwhile True:\n    i += 1\n"}[pname]
+    import threading as _th
+    threads_before = set(_th.enumerate())
     snap = sc.GlobalState()
     sb = sc.contextualize(prog, {'answer.py': prog})
     sb.allowed_time = 0.05
@@ -289,12 +291,17 @@ def free_running(ctx):
         ctx.fail({'symptom': 'free-running: no timeout reported'}, got=first['exception'])
     import threading
     import pedal.sandbox.timeout as tomod
-    still = [t.name for t in threading.enumerate() if isinstance(t, tomod.InterruptableThread) and t.is_alive()]
+    def mine():
+        # only the threads this execution started: earlier (scheduler-driven) executions of the same worker may have
+        # left parked threads behind, which say nothing about this run
+        return [t.name for t in threading.enumerate()
+                if isinstance(t, tomod.InterruptableThread) and t not in threads_before and t.is_alive()]
+    still = mine()
     if still:
         # the real interrupt (ctypes call into the interpreter) is outside the scheduler's model: this pass is the only
         # place where it runs for real
         time.sleep(0.5)
-        still = [t.name for t in threading.enumerate() if isinstance(t, tomod.InterruptableThread) and t.is_alive()]
+        still = mine()
         if still:
             ctx.fail({'symptom': 'free-running: the interrupted student thread is still alive 0.65 s after the time-out'},
                      threads=still)
